@@ -179,6 +179,18 @@ pub fn read_line(b: &[u8], skip: bool, hash: bool) -> (String, Option<Game>) {
             Err(_) => ("panic-in-dump".to_string(), Some(g)) } } }
 }
 
+/// the same read from a source whose position is not 0 when `read` is called: the replay sits behind `pre` foreign bytes and is
+/// followed by `post` more (a container, or replays stored back to back); the result must not depend on that
+pub fn read_line_at(b: &[u8], skip: bool, hash: bool, pre: usize, post: usize) -> String {
+    let o = read_opts(skip, hash);
+    let mut buf: Vec<u8> = (0..pre).map(|i| (i as u8).wrapping_mul(37) ^ 0x7b).collect(); buf.extend_from_slice(b); buf.extend((0..post).map(|i| 0x7d ^ (i as u8)));
+    let res = std::panic::catch_unwind(|| { let mut c = Cursor::new(&buf[..]); c.set_position(pre as u64); let r = slippi::read(&mut c, Some(&o)); (r, c.position()) });
+    match res { Err(_) => "panic".to_string(), Ok((Err(e), _)) => format!("err {}", e), Ok((Ok(g), pos)) => {
+        match std::panic::catch_unwind(std::panic::AssertUnwindSafe(|| dump::summary(&g))) {
+            Ok(mut s) => { if hash { s = s.replace("hashed=none", &format!("hashed=(some {})", b.len())); } if pos as usize != pre + b.len() { s.push_str(&format!(" endpos={}!={}", pos, pre + b.len())); } s }
+            Err(_) => "panic-in-dump".to_string() } } }
+}
+
 pub fn write_slp(g: &Game) -> Result<Vec<u8>, String> {
     match std::panic::catch_unwind(std::panic::AssertUnwindSafe(|| { let mut o = vec![]; slippi::write(&mut o, g).map(|_| o).map_err(|e| format!("err {}", e)) })) { Ok(r) => r, Err(_) => Err("panic".into()) }
 }
@@ -219,6 +231,19 @@ fn read(rng: &mut Rng, ctx: &mut Ctx) {
               }
               (None, Some(_)) => c.fail("C10", format!("skip-frames read of a finished replay failed: {}", sl)), _ => {} }
             ctx.push(c);
+        }
+        // the same reads from a source positioned behind foreign bytes (and followed by more): nothing may change
+        if k % 4 == 1 {
+            let pre = [1usize, 15, 37, 512, 4096][(k / 4) % 5]; let post = [0usize, 1, 600][(k / 20) % 3];
+            for (skip, hsh) in [(false, false), (false, true), (true, false), (true, true)] {
+                if skip && r.end.is_none() { continue; }
+                let at = read_line_at(&b, skip, hsh, pre, post);
+                let (zero, _) = read_line(&b, skip, hsh);
+                let mut c = Case::new(read_cmd(skip, hsh, &b), at.clone()); c.tags = vec![format!("offset-read skip{} hash{}", skip as u8, hsh as u8)];
+                if at != zero { let msg = format!("read from stream position {} (skip={}, hash={}) differs from the read at position 0: {} vs {}", pre, skip, hsh, &at[..at.len().min(120)], &zero[..zero.len().min(120)]);
+                    if skip { c.fail("C10", msg.clone()); } if hsh { c.fail("C11", msg.clone()); } if !skip { c.fail("C01", msg.clone()); c.fail("C04", msg.clone()); } c.fail("C12", msg); }
+                ctx.push(c);
+            }
         }
     }
 }
